@@ -206,8 +206,9 @@ pub fn build_other_history(p: &Plan) -> Summary {
         set_a(&mut s, *v, &x[..]);
     }
     for (v, x) in p.strs.iter().rev() {
-        set_s(&mut s, *v, "junk");
+        // the final value first, then junk, then the final value again (which may be the empty string)
         set_s(&mut s, *v, x);
+        set_s(&mut s, *v, "junk");
         set_s(&mut s, *v, x);
     }
     s
